@@ -16,7 +16,7 @@ use std::sync::{Arc, Mutex};
 pub const GROUPS: &[&str] = &[
     "usart_dec", "usart_enc", "usart_rt", "can_dec", "can_enc", "can_rt", "to_frames", "frag_rt", "builder", "ev_enc", "ev_rt", "ev_dec",
     "ev_cross", "ev_xenc", "rx_usart", "rx_serial", "rx_can", "rxh_usart", "rxh_serial", "rxh_can", "tx_usart", "tx_can", "tx_serial", "loop_usart",
-    "loop_serial", "loop_can", "e2e_usart", "e2e_serial", "e2e_can", "proto", "usart_dec_enum", "can_dec_enum", "builder_enum", "psend_usart", "psend_can", "psend_serial",
+    "loop_serial", "loop_can", "e2e_usart", "e2e_serial", "e2e_can", "proto", "usart_dec_enum", "can_dec_enum", "builder_enum", "psend_usart", "psend_can", "psend_serial", "frt_can", "frt_usart",
 ];
 
 fn guard<T>(f: impl FnOnce() -> T) -> Option<T> {
@@ -341,6 +341,26 @@ fn exec_frag_rt(t: &[&str]) -> Option<String> {
     })
 }
 
+/// `frt <can|usart> <packet>`: every frame the real fragmentation produces must survive the real codec round trip
+/// unchanged (all fields, including the unused data bytes); observation `ok <frames>` or `frame <i>: <got>` / `panic`
+fn exec_frt(t: &[&str]) -> Option<String> {
+    let path = *t.first()?;
+    let p = text::parse_packet(t.get(1)?)?;
+    let r = guard(|| {
+        let frames = p.to_frames();
+        for (i, f) in frames.iter().enumerate() {
+            let back = if path == "can" { Frame::from_bxcan_frame(f.to_bxcan_frame()) } else { Frame::from_usart_frame(f.to_usart_frame()) };
+            match back {
+                Ok(g) if text::frame(&g) == text::frame(f) => {}
+                Ok(g) => return format!("frame {}: {} -> {}", i, text::frame(f), text::frame(&g)),
+                Err(_) => return format!("frame {}: {} -> err", i, text::frame(f)),
+            }
+        }
+        format!("ok {}", frames.len())
+    });
+    Some(r.unwrap_or("panic".into()))
+}
+
 fn gen_builder(r: &mut Rng) -> String {
     // start frame, then frames generated relative to the (reference) builder state: the exact next frame and
     // single-attribute mutations of it
@@ -608,6 +628,19 @@ fn ev_dec_sweep() -> Vec<(usize, Packet)> {
         sweep.push((12, pk(vec![0, 12, 0x12, 0x34, 0, 7, 2, 0, 0, tag, 5, 6, 7, 8])));
         sweep.push((12, pk(vec![0, 12, 0x12, 0x34, 0, 7, 3, 0, 0, 0, tag, 0, 0, 0])));
         sweep.push((12, pk(vec![0, 12, 0x12, 0x34, 0, 7, 3, 0, tag, 0, 1, 0, 0, 0])));
+    }
+    // message images with every pattern of non-zero padding bytes (the padding is unspecified and must be ignored)
+    for (tag, val) in [(0u8, [0x7fu8, 0, 0, 0]), (1, [0x34, 0x12, 0, 0]), (3, [1, 0, 0, 0]), (3, [0, 0, 0, 0])] {
+        for padmask in 1..8u8 {
+            let mut d = vec![0, 12, 0x12, 0x34, 0, 7, tag, 0, 0, 0, val[0], val[1], val[2], val[3]];
+            let first_pad = if tag == 1 { 12 } else { 11 };
+            for k in 0..3usize {
+                if padmask & (1 << k) != 0 && first_pad + k < 14 {
+                    d[first_pad + k] = 0xa5;
+                }
+            }
+            sweep.push((12, pk(d)));
+        }
     }
     for declared in [0xffffu16, 0xfffe, 0xfffb, 0xfffa, 0xfff9, 0x8000, 0x0100] {
         for extra in [0usize, 1, 7] {
@@ -927,6 +960,27 @@ fn gen_byte_history(r: &mut Rng, serial: bool, faults: bool) -> Vec<ByteItem> {
             }
         }
     }
+    if r.below(120) == 0 {
+        // endurance: hundreds of undecodable or foreign link frames in a row (no packet completes in between), optionally
+        // while a multi-frame packet is pending
+        if r.flip() {
+            let p = Packet { is_error: false, device_address: 7, data: gen_bytes(r.below(99), 30) };
+            segs.extend(refenc::wire(&p).into_iter().take(2));
+        }
+        for _ in 0..260 + r.below(200) {
+            match r.below(4) {
+                0 => segs.push(vec![0, 2, 5, 1]),                                 // truncated COBS run
+                1 => segs.push(vec![0, 1, 1]),                                    // empty body
+                2 => segs.push(vec![0, 6, 2, 0x80 | r.below(16) as u8, 3, 1, 1, 9]), // declared length disagrees
+                _ => {
+                    let l = 1 + r.below(4) as u8;
+                    let mut v = vec![0, l];
+                    v.extend((0..l).map(|_| 1 + r.below(255) as u8));
+                    segs.push(v);
+                }
+            }
+        }
+    }
     if r.below(80) == 0 {
         // scale: a long packet (hundreds to 4096 frames), whole or cut short, sometimes followed by a wrong frame
         let frames = *r.pick(&[300usize, 300, 600, 600, 1200, 1200, 2049, 4096]);
@@ -1038,6 +1092,16 @@ fn gen_can_history(r: &mut Rng) -> Vec<CanItem> {
                 let p = gen_some_packet(r, None, 30);
                 push_frames(&mut items, r, refenc::can_wire(&p));
             }
+        }
+    }
+    if r.below(120) == 0 {
+        // endurance: hundreds of foreign frames in a row
+        for _ in 0..260 + r.below(200) {
+            items.push(CanItem::Frame(match r.below(3) {
+                0 => bxcan::Frame::new_data(bxcan::StandardId::new(r.below(0x800) as u16).unwrap(), bxcan::Data::new(&[1, 2]).unwrap()),
+                1 => bxcan::Frame::new_remote(bxcan::ExtendedId::new(r.next() as u32 & 0x1fff_ffff).unwrap(), r.below(9) as u8),
+                _ => bxcan::Frame::new_data(bxcan::ExtendedId::new((1 << 26) | r.u16() as u32).unwrap(), bxcan::Data::new(&[]).unwrap()),
+            }));
         }
     }
     for probe in 0..2u16 {
@@ -1759,6 +1823,8 @@ impl Gen {
             "to_frames" => format!("to_frames {}", gen_packet_text(r, i)),
             "frag_rt" => format!("frag_rt {} {}", ["direct", "can", "usart"][(i % 3) as usize], gen_packet_text(r, i / 3)),
             "builder" => format!("builder {}", gen_builder(r)),
+            "frt_can" => format!("frt can {}", gen_packet_text(r, i)),
+            "frt_usart" => format!("frt usart {}", gen_packet_text(r, i)),
             "ev_enc" => format!("ev_enc {}", gen_event_text(r, i)),
             "ev_rt" => format!("ev_rt {}", gen_event_text(r, i)),
             "ev_dec" => format!("ev_dec {}", gen_ev_dec(r, i, &self.sweep)),
@@ -1819,6 +1885,7 @@ pub fn exec(input: &str) -> Option<String> {
         "can_rt" => exec_can_rt(rest),
         "to_frames" => exec_to_frames(rest),
         "frag_rt" => exec_frag_rt(rest),
+        "frt" => exec_frt(rest),
         "builder" => exec_builder(rest),
         "ev_enc" => exec_ev_enc(rest),
         "ev_rt" => exec_ev_rt(rest),
